@@ -38,11 +38,8 @@ def discResOfJson (j : Json) : Except String DiscRes :=
   | Json.str "raise" => pure .raise
   | _ => pure .ok
 
-def cfgOfJson (j : Json) : Except String Cfg := do
-  let ac ← (← j.getObjVal? "alwaysConnect").getBool?
-  let ah ← (← j.getObjVal? "asyncHandlers").getBool?
-  let servedJ ← j.getObjVal? "served"
-  let served ← (if servedJ.isNull then pure none else do let l ← strListOfJson servedJ; pure (some l))
+/-- the handler registries named by the fields `fn` ([[ns, ev], ...]) and `cls` ([[ns, [methods]], ...]) -/
+def regOfJson (j : Json) : Except String Registry := do
   let fnA ← (← j.getObjVal? "fn").getArr?
   let fns ← fnA.toList.mapM (fun e => do
     let l ← strListOfJson e
@@ -55,14 +52,21 @@ def cfgOfJson (j : Json) : Except String Cfg := do
     match p.toList with
     | [ns, ms] => do let n ← strOfJson ns; let m ← strListOfJson ms; pure (n, m)
     | _ => throw "bad cls entry")
-  let oc ← (← (← j.getObjVal? "onConnect").getArr?).toList.mapM connResOfJson
-  let oe ← (← (← j.getObjVal? "onEvent").getArr?).toList.mapM evResOfJson
-  let od ← (← (← j.getObjVal? "onDisconnect").getArr?).toList.mapM discResOfJson
-  let reg : Registry :=
+  pure
     { fn := fun ns ev => fns.contains (ns, ev),
       fnNs := fun ns => fns.any (fun p => p.1 = ns),
       cls := fun ns => clss.any (fun p => p.1 = ns),
       clsMethod := fun ns m => clss.any (fun p => p.1 = ns ∧ p.2.contains m) }
+
+def cfgOfJson (j : Json) : Except String Cfg := do
+  let ac ← (← j.getObjVal? "alwaysConnect").getBool?
+  let ah ← (← j.getObjVal? "asyncHandlers").getBool?
+  let servedJ ← j.getObjVal? "served"
+  let served ← (if servedJ.isNull then pure none else do let l ← strListOfJson servedJ; pure (some l))
+  let oc ← (← (← j.getObjVal? "onConnect").getArr?).toList.mapM connResOfJson
+  let oe ← (← (← j.getObjVal? "onEvent").getArr?).toList.mapM evResOfJson
+  let od ← (← (← j.getObjVal? "onDisconnect").getArr?).toList.mapM discResOfJson
+  let reg ← regOfJson j
   pure { alwaysConnect := ac, served := served, asyncHandlers := ah, reg := reg,
          script := ⟨fun n => oc.getD n .accept, fun n => oe.getD n (.ret .none), fun n => od.getD n .ok⟩ }
 
@@ -154,6 +158,11 @@ def step (st : DState) (j : Json) : Except String (DState × Json) := do
       let (_, r) ← KCodec.step () j
       pure (st, r)
     else if op == "snapshot" then pure (st, snapshot st.srv)
+    else if op == "reg" then
+      -- the application registered handlers at run time: `step` takes the registry as it is from now on (the
+      -- server state and the rest of the configuration stay)
+      let reg ← regOfJson j
+      pure ({ st with cfg := { st.cfg with reg := reg } }, Json.mkObj [("outs", Json.arr #[])])
     else
       let (inp, table) ← inputOfJson j
       let dec : Str → Except Err (Packet × Nat) := fun s =>
